@@ -74,6 +74,12 @@ def worker_main(pid, descs_path, out_path):
                 res.pop('case', None)        # the materialised case is only needed in a replay file
             res['i'] = i
             res['desc'] = desc
+            import locale as _locale
+            if 'utf' not in _locale.getpreferredencoding(False).lower():
+                res['tags'] = list(res.get('tags') or []) + ['legacy_locale_mode']
+            if sys.flags.optimize:
+                res['tags'] = list(res.get('tags') or []) + ['interpreter_optimize_mode']
+                res.setdefault('counters', {})['cases_run_under_python_O'] = 1
             out.write(json.dumps(res, default=_default) + '\n')
             out.flush()
 
@@ -120,16 +126,36 @@ def run_property(pid, tier, seed, replay=None):
     n_shards = max(1, min(NWORKERS, len(descs)))
     weights = getattr(mod, 'weight', None)
     shards = [[] for _ in range(n_shards)]
+    # every fourth worker runs under python -O (see below); a descriptor may ask for it ('pyopt': True) or exclude it
+    opt_shards = [j for j in range(n_shards) if j % 4 == 3] if replay is None and os.environ.get('VERIF_NO_OPTIMIZE_SHARDS') != '1' else []
+    if replay is not None and rp.get('python_optimize'):
+        opt_shards = [0]              # the witness was observed in a worker running under python -O
+
+    # workers 1, 5, 9, 13 of a module that asks for it run under a legacy (non-UTF-8) locale
+    loc_shards = [j for j in range(n_shards) if j % 4 == 1] if getattr(mod, 'LEGACY_LOCALE_SHARDS', False) and replay is None else []
+    if replay is not None and rp.get('legacy_locale'):
+        loc_shards = [0]
+
+    def allowed(d):
+        if isinstance(d, dict) and d.get('legacy_locale') and loc_shards:
+            return loc_shards
+        want = d.get('pyopt') if isinstance(d, dict) else None
+        if want is True and opt_shards:
+            return opt_shards
+        if want is False and len(opt_shards) < n_shards:
+            return [j for j in range(n_shards) if j not in opt_shards]
+        return list(range(n_shards))
     if weights is not None:
         # greedy balancing for plans whose cases differ a lot in cost
         load = [0.0] * n_shards
         for item in sorted(descs, key=lambda d: -weights(d[1])):
-            j = load.index(min(load))
+            j = min(allowed(item[1]), key=lambda q: load[q])
             shards[j].append(item)
             load[j] += weights(item[1])
     else:
         for k, item in enumerate(descs):
-            shards[k % n_shards].append(item)
+            al = allowed(item[1])
+            shards[al[k % len(al)]].append(item)
     shard_env = getattr(mod, 'SHARD_ENV', None)
     procs = []
     timeout = float(os.environ.get('VERIF_SHARD_TIMEOUT', getattr(mod, 'TIMEOUT', {}).get(tier, 3000)))
@@ -138,7 +164,13 @@ def run_property(pid, tier, seed, replay=None):
         opath = os.path.join(work, 'out_%d.jsonl' % j)
         with open(dpath, 'w') as fh:
             json.dump(sh, fh)
-        extra = shard_env(j, sh) if shard_env else None
+        extra = dict(shard_env(j, sh) or {}) if shard_env else {}
+        if j in loc_shards:
+            extra.update({'LC_ALL': 'C', 'LANG': 'C', 'PYTHONUTF8': '0', 'PYTHONCOERCECLOCALE': '0'})
+        if j in opt_shards:
+            # every fourth worker runs the interpreter in optimised mode (python -O: asserts and `if __debug__`
+            # blocks of ampycloud are stripped); the monitors are the same (contracts are enabled explicitly)
+            extra['PYTHONOPTIMIZE'] = '1'
         p = subprocess.Popen([sys.executable, '-m', 'vf.main', '--worker', pid, dpath, opath],
                              env=env.child_env(extra), cwd=env.VERIF_DIR,
                              stdout=subprocess.DEVNULL, stderr=open(os.path.join(work, 'err_%d.txt' % j), 'w'))
@@ -228,7 +260,8 @@ def run_property(pid, tier, seed, replay=None):
         r = results.get(v.get('_i'), {})
         rp = {'property': pid, 'tier': tier, 'seed': seed, 'desc': r.get('desc', v.get('desc')),
               'case': r.get('case'), 'witness': {k: x for k, x in v.items() if not k.startswith('_')},
-              'tree': tree}
+              'tree': tree, 'python_optimize': 'interpreter_optimize_mode' in (r.get('tags') or []),
+              'legacy_locale': 'legacy_locale_mode' in (r.get('tags') or [])}
         h = hashlib.sha256(json.dumps(rp, sort_keys=True, default=_default).encode()).hexdigest()[:12]
         path = os.path.join(rdir, '%s_%s.json' % (pid, h))
         with open(path, 'w') as fh:
